@@ -10,7 +10,7 @@ polygon-like and multipoint shapes incl. the missing-point mask."""
 import z3
 
 from pyvc import state as st
-from pyvc.contracts import Arr, Const, Contract, Flt, NoneSort, RecSpec, Sort, Tup, same_array
+from pyvc.contracts import Arr, Const, Contract, Flt, NoneSort, Rec, RecSpec, Sort, Tup, same_array
 from pyvc.values import (FIN, NONE, SArr, SBool, SFloat, SInt, SNone, SRecord, STuple, And, Implies, Ite, Not, Or,
                          exists, forall, fresh_name)
 from pyvc.builtins_np import DType
@@ -262,8 +262,26 @@ class ShapeSort(Sort):
         return SRecord(self.cls, fields), a
 
 
-def _gen_shape(rng, cls):
-    """a scalar shape as a typed record: closed rectangular rings (valid: first ring the shell, others inside it)"""
+def _gen_shape(rng, cls, near=None):
+    """a scalar shape as a typed record: closed rectangular rings (valid: first ring the shell, others inside it);
+    a Point is one of the array's own points or a point a few ulps / a tiny or metre-scale step away from one"""
+    if cls == 'Point':
+        import math
+        base = rng.choice(near) if near and rng.random() < 0.85 else (float(rng.randint(-3, 3)), float(rng.randint(-3, 3)))
+        x, y = base
+        r = rng.random()
+        if r < 0.3:
+            pass
+        elif r < 0.5:
+            x = math.nextafter(x, math.inf) if rng.random() < 0.5 else x + 2.0 ** -30
+        elif r < 0.7:
+            y = math.nextafter(y, -math.inf) if rng.random() < 0.5 else y - 2.0 ** -30
+        elif r < 0.85:
+            x, y = x * (1 + 2.0 ** -20), y
+        else:
+            x, y = x + rng.randint(-1, 1), y + rng.randint(-1, 1)
+        return {'k': 'record', 'cls': 'Point', 'fields': {'x': {'k': 'float', 'v': float(x).hex()},
+                                                          'y': {'k': 'float', 'v': float(y).hex()}}}
     cx, cy = rng.randint(-2, 3), rng.randint(-2, 3)
     w, h = rng.randint(2, 3), rng.randint(2, 3)
     rings = [[cx - w, cy - h, cx + w, cy - h, cx + w, cy + h, cx - w, cy + h, cx - w, cy - h]]
@@ -289,7 +307,17 @@ def _gen_intersects(pname):
         if n == 0 and rng.random() < 0.8:
             me = PointArraySort(bool(config.get('validity', True))).gen(rng, config)
             n = me['fields']['data']['fields']['length']['v']
-        shape = _gen_shape(rng, config.get('shape', 'Polygon'))
+        near = None
+        if config.get('shape') == 'Point':
+            try:
+                vals = [float.fromhex(v) if isinstance(v, str) else float(v)
+                        for v in me['fields']['data']['fields']['bufs']['items'][1]['data']]
+                near = [(vals[2 * k], vals[2 * k + 1]) for k in range(len(vals) // 2)
+                        if vals[2 * k] == vals[2 * k] and abs(vals[2 * k]) != float('inf')
+                        and vals[2 * k + 1] == vals[2 * k + 1] and abs(vals[2 * k + 1]) != float('inf')] or None
+            except (KeyError, TypeError, ValueError, IndexError):
+                near = None
+        shape = _gen_shape(rng, config.get('shape', 'Polygon'), near)
         if config.get('inds') == 'given':
             if n and rng.random() < 0.45:
                 idx = list(range(n))
@@ -309,9 +337,14 @@ def register_intersects(reg):
     POLY_CFG = [{'validity': v, 'inds': m, 'shape': k} for v in (True, False) for m in ('none', 'given')
                 for k in ('Polygon', 'MultiPolygon')]
 
+    def shape_sort(cfg, default):
+        k = cfg.get('shape') if isinstance(cfg.get('shape'), str) else default
+        # a scalar Point as seen by the array kernel: its two coordinates (Point.x / Point.y are assumed to be them)
+        return Rec('Point', x=Flt(finite=True), y=Flt(finite=True)) if k == 'Point' else ShapeSort(k)
+
     def params(cfg):
         inds = Arr('int', 'int64') if cfg.get('inds') == 'given' else NoneSort()
-        return [('self', S(cfg)), ('shape', ShapeSort(cfg.get('shape') if isinstance(cfg.get('shape'), str) else 'Polygon')),
+        return [('self', S(cfg)), ('shape', shape_sort(cfg, 'Polygon') if cfg.get('shape') == 'Point' else ShapeSort(cfg.get('shape') if isinstance(cfg.get('shape'), str) else 'Polygon')),
                 ('inds', inds)]
 
     def req(c):
@@ -321,6 +354,8 @@ def register_intersects(reg):
                                                                          And(c.inds[k] >= 0, c.inds[k] < rep(c.self).length)))))
             out.append(('inds-unit-stride', c.inds.stride == 1))
         sh = c.shape
+        if c.config['shape'] == 'Point':
+            return out
         if c.config['shape'] in ('Polygon', 'MultiPolygon'):
             out += [('shape-offsets', And(sh.buffer_inner_offsets.n >= 1, sh.buffer_inner_offsets.stride == 1,
                                           sh.buffer_values.stride == 1)),
@@ -332,6 +367,8 @@ def register_intersects(reg):
     def verdict(c, i):
         sh = c.shape
         x, y = px(c.self, i), py(c.self, i)
+        if c.config['shape'] == 'Point':
+            return And(x == sh.x, y == sh.y)
         if c.config['shape'] in ('Polygon', 'MultiPolygon'):
             return wn_spec(sh.buffer_values, sh.buffer_inner_offsets, x, y) != 0
         m = sh.flat_values
@@ -349,8 +386,8 @@ def register_intersects(reg):
                  forall('int', lambda k: Implies(And(k >= 0, k < n), row(k))))]
 
     reg.add(Contract(PT + '::PointArray.intersects', params, returns=Arr('bool'), requires=req, ensures=ens,
-                     configs=POLY_CFG + [{'validity': v, 'inds': m, 'shape': 'MultiPoint'} for v in (True, False)
-                                         for m in ('none', 'given')],
+                     configs=POLY_CFG + [{'validity': v, 'inds': m, 'shape': k} for v in (True, False)
+                                         for m in ('none', 'given') for k in ('MultiPoint', 'Point')],
                      props=('C02', 'C17', 'C05'), fuel=0, gen=_gen_intersects('shape')))
 
     def helper(name, shapes):
@@ -360,13 +397,11 @@ def register_intersects(reg):
             return [('length', r.n == n),
                     ('row-k-is-the-kernel-verdict-for-point-inds-k', forall('int', lambda k: Implies(
                         And(k >= 0, k < n), r[k] == verdict(c, c.inds[k] if given else k))))]
-        key = {'Polygon': 'polygon', 'MultiPoint': 'multipoint'}[shapes[0]]
-        pname = {'_intersects_polygon': 'polygon', '_intersects_multipoint': 'multipoint'}[name]
+        pname = {'_intersects_polygon': 'polygon', '_intersects_multipoint': 'multipoint', '_intersects_point': 'point'}[name]
 
         def hparams(cfg):
             inds = Arr('int', 'int64') if cfg.get('inds') == 'given' else NoneSort()
-            return [('self', S(cfg)), (pname, ShapeSort(cfg.get('shape') if isinstance(cfg.get('shape'), str) else shapes[0])),
-                    ('inds', inds)]
+            return [('self', S(cfg)), (pname, shape_sort(cfg, shapes[0])), ('inds', inds)]
 
         class _C:
             pass
@@ -385,3 +420,4 @@ def register_intersects(reg):
                          props=('C02', 'C05'), fuel=2, gen=_gen_intersects(pname)))
     helper('_intersects_polygon', ['Polygon', 'MultiPolygon'])
     helper('_intersects_multipoint', ['MultiPoint'])
+    helper('_intersects_point', ['Point'])
